@@ -564,33 +564,41 @@ impl Array {
 
                 op(output_slice, &slices);
 
-                for (i, (x, d)) in indices
+                for (x, d) in indices
                     .iter_mut()
                     .zip(input_dimensions)
-                    .enumerate()
                     .rev()
                     .skip(op_dimension_count)
                 {
                     if *x == *d - 1 {
                         *x = 0;
                     } else {
-                        for (((index, slice), array), group_length) in flat_indices
-                            .iter_mut()
-                            .zip(slices.iter_mut())
-                            .zip(&arrays)
-                            .zip(&group_lengths)
-                        {
-                            if i < array.dimensions.len().saturating_sub(op_dimension_count)
-                                && array.dimensions[i] != 1
-                            {
-                                *index += group_length;
-                                *slice = &array.values[*index..*index + group_length];
-                            }
-                        }
-
                         *x += 1;
                         break;
                     }
+                }
+
+                // slice each array at its own leading indices, which are aligned from the last
+                // leading dimension, and stay at zero along broadcast dimensions
+                for (((index, slice), array), group_length) in flat_indices
+                    .iter_mut()
+                    .zip(slices.iter_mut())
+                    .zip(&arrays)
+                    .zip(&group_lengths)
+                {
+                    let array_leading_count = cmp::min(
+                        array.dimensions.len().saturating_sub(op_dimension_count),
+                        leading_count,
+                    );
+                    let position = array
+                        .dimensions
+                        .iter()
+                        .take(array_leading_count)
+                        .zip(&indices[leading_count - array_leading_count..leading_count])
+                        .fold(0, |acc, (d, i)| acc * d + if *d == 1 { 0 } else { *i });
+
+                    *index = position * group_length;
+                    *slice = &array.values[*index..*index + group_length];
                 }
             }
         }
